@@ -5,6 +5,7 @@
 package tds
 
 import (
+	"fmt"
 	"sync"
 )
 
@@ -161,10 +162,8 @@ func (queue *PacketQueue) Write(p []byte) (int, error) {
 
 // Bytes returns a slice of bytes from the queue.
 //
-// The returned byte slice will always be of length n.
-//
 // If there aren't enough bytes to read n bytes Bytes will return
-// a wrapped io.EOF. The returned byte slice will still be of length n.
+// ErrNotEnoughBytes together with the bytes that were available.
 func (queue *PacketQueue) Bytes(n int) ([]byte, error) {
 	queue.Lock()
 	defer queue.Unlock()
@@ -173,7 +172,18 @@ func (queue *PacketQueue) Bytes(n int) ([]byte, error) {
 		return []byte{}, nil
 	}
 
-	bs := make([]byte, n)
+	if n < 0 {
+		return []byte{}, fmt.Errorf("tds: cannot read %d bytes", n)
+	}
+
+	// n often is a length declared by the server - never allocate more
+	// than has actually been received.
+	size := n
+	if unread := queue.unread(); size > unread {
+		size = unread
+	}
+
+	bs := make([]byte, size)
 	// bsOffset is the index in the return slice where data still needs
 	// to be written.
 	bsOffset := 0
@@ -212,10 +222,26 @@ func (queue *PacketQueue) Bytes(n int) ([]byte, error) {
 	return bs, nil
 }
 
+// unread returns the number of bytes between the position and the end of
+// the queue.
+func (queue *PacketQueue) unread() int {
+	unread := 0
+	for i := queue.indexPacket; i < len(queue.queue); i++ {
+		unread += len(queue.queue[i].Data)
+	}
+	if queue.indexPacket < len(queue.queue) {
+		unread -= queue.indexData
+	}
+	return unread
+}
+
 // Byte implements the tds.BytesChannel interface.
 func (queue *PacketQueue) Byte() (byte, error) {
 	bs, err := queue.Bytes(1)
-	return bs[0], err
+	if err != nil {
+		return 0, err
+	}
+	return bs[0], nil
 }
 
 // Uint8 implements the tds.BytesChannel interface.
@@ -233,7 +259,10 @@ func (queue *PacketQueue) Int8() (int8, error) {
 // Uint16 implements the tds.BytesChannel interface.
 func (queue *PacketQueue) Uint16() (uint16, error) {
 	bs, err := queue.Bytes(2)
-	return endian.Uint16(bs), err
+	if err != nil {
+		return 0, err
+	}
+	return endian.Uint16(bs), nil
 }
 
 // Int16 implements the tds.BytesChannel interface.
@@ -245,7 +274,10 @@ func (queue *PacketQueue) Int16() (int16, error) {
 // Uint32 implements the tds.BytesChannel interface.
 func (queue *PacketQueue) Uint32() (uint32, error) {
 	bs, err := queue.Bytes(4)
-	return endian.Uint32(bs), err
+	if err != nil {
+		return 0, err
+	}
+	return endian.Uint32(bs), nil
 }
 
 // Int32 implements the tds.BytesChannel interface.
@@ -257,7 +289,10 @@ func (queue *PacketQueue) Int32() (int32, error) {
 // Uint64 implements the tds.BytesChannel interface.
 func (queue *PacketQueue) Uint64() (uint64, error) {
 	bs, err := queue.Bytes(8)
-	return endian.Uint64(bs), err
+	if err != nil {
+		return 0, err
+	}
+	return endian.Uint64(bs), nil
 }
 
 // Int64 implements the tds.BytesChannel interface.
